@@ -313,4 +313,18 @@ example : Ufw.Gen.EndpFns.source_get_chunk 12 0#32 { stream := [1#8, 2#8, 3#8, 4
       [0#8, 0#8, 0#8, 0#8, 0#8] 5#64
     = Res.val (5#64, { stream := [6#8], script := [], calls := 6 }, [1#8, 2#8, 3#8, 4#8, 5#8]) := by decide
 
+/-- `source_get_chunk_atmost(source, buf, n)`: one attempt, no loop -/
+theorem gen_source_get_chunk_atmost (F G : Nat) (s : MSrc) (blk : List (BitVec 8)) (n : BitVec 64)
+    (hnd : (Ufw.Model.Endpoints.source_get_chunk_atmost F s blk.length).1 ≠ R.diverge) (hG : F + 2 ≤ G)
+    (hn : n.toNat = blk.length) (hsmall : blk.length < 2 ^ 63) :
+    Ufw.Gen.EndpFns.source_get_chunk_atmost G (kindCode s.kind) (srcD s) blk n
+      = Res.val (rc64 (Ufw.Model.Endpoints.source_get_chunk_atmost F s blk.length).1,
+                 srcD (Ufw.Model.Endpoints.source_get_chunk_atmost F s blk.length).2.2,
+                 (Ufw.Model.Endpoints.source_get_chunk_atmost F s blk.length).2.1
+                   ++ blk.drop (Ufw.Model.Endpoints.source_get_chunk_atmost F s blk.length).2.1.length) := by
+  unfold Ufw.Gen.EndpFns.source_get_chunk_atmost Ufw.Model.Endpoints.source_get_chunk_atmost at *
+  simp only [List.drop_zero]
+  rw [gen_once_source_get_chunk F G s blk n hnd (by omega) hn hsmall, Res.bind_val]
+  simp [splice]
+
 end Ufw.Tie.EndpFns
